@@ -1,7 +1,356 @@
+/-
+  CB.Driver.C01 — value correspondence for the LEAKAGE MODEL of property C01 (`CB/Model/LeakOps.lean`).
+
+  The noninterference theorems of `CB/Props/C01.lean` speak about the traces of the `CB.Leak.*` functions; this driver
+  ties the VALUES those functions compute to the real crate: every op `c01.leak.<fn> …` runs the leak-model function on
+  secrets built from the operands (`Sec.ofNat`), reveals the result (`Sec.reveal` — allowed here, never in LeakOps.lean)
+  and prints     L1 ;; L0     where L1 = the leak model's result and L0 = the plain `Nat` / `Int` specification of the
+  operation.  `harness/src/ops/c01.rs` prints the result of the REAL public function in the same format.  So a one-token
+  change in the arithmetic of the leak model (L1 ≠ L0 / ≠ crate), or a semantic change in the Rust, is a disagreement.
+
+  Token conventions (AGENT_GUIDE §2): limb counts, shifts, bit indices decimal; values hex; signed values as the hex of
+  their two's complement limbs; masks `0`/`1`; a value under a false mask prints `none`.  Core Lean only.
+-/
 import CB.Driver.Util
+import CB.Model.LeakOps
 namespace CB
+namespace D01
+open CB.Leak
+
+def sec (n x : Nat) : List Sec := (toLimbs n x).map Sec.ofNat
+def rv (l : List Sec) : List Nat := l.map Sec.reveal
+def vl (l : List Sec) : Nat := val (rv l)
+def hx (l : List Sec) : String := limbsHex (rv l)
+def hxl (l : List Sec) : String := limbsHexLen (rv l)
+def wd (s : Sec) : String := natToHex s.reveal
+def mk (s : Sec) : String := choiceTok s.reveal
+def b01 (p : Bool) : String := if p then "1" else "0"
+/-- a value under a mask: printed only when the mask is set -/
+def opt (v : String) (s : Sec) : String := if s.reveal = WMAX then v else if s.reveal = 0 then "none" else s!"badchoice:{natToHex s.reveal}"
+def optB (v : String) (p : Bool) : String := if p then v else "none"
+def msk (c : Nat) : Sec := if c = 0 then Sec.zero else Sec.max
+def nhl (n x : Nat) : String := s!"{n}:{natToHex x}"
+
+/-- signed reading of an `n`-limb two's complement value, and back -/
+def sgn (n x : Nat) : Int := if 2 * (x % B ^ n) ≥ B ^ n then ((x % B ^ n : Nat) : Int) - ((B ^ n : Nat) : Int) else ((x % B ^ n : Nat) : Int)
+def twos (n : Nat) (i : Int) : Nat := (i % ((B ^ n : Nat) : Int)).toNat
+def fitsI (n : Nat) (i : Int) : Bool := decide (-(((B ^ n / 2 : Nat)) : Int) ≤ i ∧ i < ((B ^ n / 2 : Nat) : Int))
+def ihx (n : Nat) (i : Int) : String := natToHex (twos n i)
+def iopt (n : Nat) (i : Int) : String := if fitsI n i then ihx n i else "none"
+/-- the i8 of an `Ordering` held in a word -/
+def ordTok (s : Sec) : String := if s.reveal = 0 then "0" else if s.reveal = 1 then "1" else if s.reveal = WMAX then "-1" else "badord"
+def ordOf (a b : Int) : String := if a < b then "-1" else if a = b then "0" else "1"
+def lz (n x : Nat) : Nat := 64 * n - (if x = 0 then 0 else Nat.log2 x + 1)
+def tzN (bits x : Nat) : Nat := if x = 0 then bits else (List.range bits).foldr (fun i acc => if x / 2 ^ i % 2 = 1 then i else acc) bits
+def toN (bits x : Nat) : Nat := tzN bits (2 ^ bits - 1 - x % 2 ^ bits)
+def isqrt (x : Nat) : Nat := Nat.sqrt x
+
+/-- `-m⁻¹ mod 2^64` for odd `m` (Newton on words; PUBLIC precomputation of the Montgomery parameters) -/
+def negInv64 (m : Nat) : Nat :=
+  let m0 := m % B
+  let x := (List.range 6).foldl (fun x _ => (x * (2 + B * B - m0 * x)) % B) 1
+  (B - x) % B
+
+/-- `x^e mod m` by square-and-multiply over the bits of `e` -/
+def powMod (x e m : Nat) : Nat :=
+  (List.range (Nat.log2 e + 1)).foldr (fun i acc => (acc * acc % m) * (if e / 2 ^ i % 2 = 1 then x % m else 1) % m) (1 % m)
+
+abbrev Fn := List Nat → String
+def bad : String := "bad-args"
+
+def op (name sig : String) (f : Fn) : String × String × Fn := (name, sig, f)
+
+/-- per op: the signature (`d` decimal, `h` hex per argument) and the function printing `L1 ;; L0` -/
+def ops : List (String × String × Fn) := [
+  -- ---- limb
+  op "c01.leak.limb" "hhhh" (fun
+    | [a, b, c, d] =>
+      let sa := Sec.ofNat a; let sb := Sec.ofNat b; let sc := Sec.ofNat c; let sd := Sec.ofNat d
+      let ad := (limbAdc sa sb sc).val; let sbb := (limbSbb sa sb sc).val; let mc := (limbMac sa sb sc sd).val
+      let l1 := s!"{mk (limbEq sa sb).val} {mk (limbLt sa sb).val} {wd (limbSelect sa sb (msk (c % 2))).val} {wd ad.1} {wd ad.2} {wd sbb.1} {wd sbb.2} {wd mc.1} {wd mc.2} {wd (limbBits sa).val}"
+      let bw := c / HALF
+      let l0 := s!"{b01 (a == b)} {b01 (decide (a < b))} {natToHex (if c % 2 = 1 then b else a)} {natToHex ((a + b + c) % B)} {natToHex ((a + b + c) / B)} {natToHex ((a + B - b - bw) % B)} {natToHex (if a < b + bw then WMAX else 0)} {natToHex ((a + b * c + d) % B)} {natToHex ((a + b * c + d) / B)} {natToHex (if a = 0 then 0 else Nat.log2 a + 1)}"
+      s!"{l1} ;; {l0}"
+    | _ => bad),
+  -- ---- Uint select / comparison
+  op "c01.leak.ucmp" "dhhd" (fun
+    | [n, a, b, c] =>
+      let x := sec n a; let y := sec n b
+      let l1 := s!"{hx (uselect n x y (msk c)).val} {mk (isNonzero n x).val} {mk (ueq n x y).val} {mk (ult n x y).val} {mk (ugt n x y).val} {ordTok (ucmp n x y).val} {mk (ulte n x y).val}"
+      let l0 := s!"{natToHex (if c = 0 then a else b)} {b01 (a != 0)} {b01 (a == b)} {b01 (decide (a < b))} {b01 (decide (a > b))} {ordOf a b} {b01 (decide (a ≤ b))}"
+      s!"{l1} ;; {l0}"
+    | _ => bad),
+  op "c01.leak.cmp_vartime" "dhh" (fun
+    | [n, a, b] => s!"{ordTok (cmpVartime n (sec n a) (sec n b)).val} ;; {ordOf a b}"
+    | _ => bad),
+  -- ---- add / sub / neg / bit ops
+  op "c01.leak.addsub" "dhhh" (fun
+    | [n, a, b, c] =>
+      let x := sec n a; let y := sec n b; let m := B ^ n
+      let ad := (uadc n x y (Sec.ofNat c)).val; let sb := (usbb n x y (Sec.ofNat c)).val; let ng := (uneg n x).val
+      let l1 := s!"{hx ad.1} {wd ad.2} {hx sb.1} {wd sb.2} {hx ng.1} {wd ng.2} {hx (wrappingAdd n x y).val} {hx (wrappingSub n x y).val} {hx (bitandLimb n x (Sec.ofNat c)).val} {hx (unot n x).val} {hx (ubitxor n x y).val} {hx (ubitor n x y).val} {hx (wrappingNegIf n x (msk (c % 2))).val}"
+      let bw := c / HALF
+      let cmask := (List.range n).foldl (fun acc i => acc + c * B ^ i) 0
+      let l0 := s!"{natToHex ((a + b + c) % m)} {natToHex ((a + b + c) / m)} {natToHex ((a + m - b - bw) % m)} {natToHex (if a < b + bw then WMAX else 0)} {natToHex ((m - a) % m)} {natToHex (if a = 0 then 1 else 0)} {natToHex ((a + b) % m)} {natToHex ((a + m - b) % m)} {natToHex (a &&& cmask)} {natToHex (m - 1 - a)} {natToHex (a ^^^ b)} {natToHex (a ||| b)} {natToHex (if c % 2 = 1 then (m - a) % m else a)}"
+      s!"{l1} ;; {l0}"
+    | _ => bad),
+  -- ---- shifts
+  op "c01.leak.shl_vartime" "dhd" (fun
+    | [n, a, s] => let r := (shlVartime n (sec n a) s).val
+      s!"{opt (hx r.1) r.2} ;; {optB (natToHex (a * 2 ^ s % B ^ n)) (s < 64 * n)}"
+    | _ => bad),
+  op "c01.leak.shr_vartime" "dhd" (fun
+    | [n, a, s] => let r := (shrVartime n (sec n a) s).val
+      s!"{opt (hx r.1) r.2} ;; {optB (natToHex (a / 2 ^ s)) (s < 64 * n)}"
+    | _ => bad),
+  op "c01.leak.shl" "dhd" (fun
+    | [n, a, s] => let r := (overflowingShl n (sec n a) (Sec.ofNat s)).val
+      s!"{opt (hx r.1) r.2} ;; {optB (natToHex (a * 2 ^ s % B ^ n)) (s < 64 * n)}"
+    | _ => bad),
+  op "c01.leak.shr" "dhd" (fun
+    | [n, a, s] => let r := (overflowingShr n (sec n a) (Sec.ofNat s)).val
+      s!"{opt (hx r.1) r.2} ;; {optB (natToHex (a / 2 ^ s)) (s < 64 * n)}"
+    | _ => bad),
+  op "c01.leak.shl_limb" "dhd" (fun
+    | [n, a, s] => let r := (shlLimb n (sec n a) (Sec.ofNat s)).val
+      s!"{hx r.1} {wd r.2} ;; {natToHex (a * 2 ^ s % B ^ n)} {natToHex (a * 2 ^ s / B ^ n)}"
+    | _ => bad),
+  op "c01.leak.shr1" "dh" (fun
+    | [n, a] => s!"{hx (shr1 n (sec n a)).val} ;; {natToHex (a / 2)}"
+    | _ => bad),
+  -- ---- bit queries
+  op "c01.leak.bits" "dhdd" (fun
+    | [n, a, i, v] =>
+      let x := sec n a
+      let l1 := s!"{mk (bit n x (Sec.ofNat i)).val} {wd (bitVartime n x i).val} {wd (leadingZeros n x).val} {wd (trailingZeros n x).val} {wd (trailingOnes n x).val} {wd (bits n x).val} {wd (bitsVartime n x).val} {hx (setBit n x (Sec.ofNat i) (msk v)).val}"
+      let bitv := a / 2 ^ i % 2
+      let setv := if i < 64 * n then (if v = 1 then a ||| 2 ^ i else a - bitv * 2 ^ i) else a
+      let l0 := s!"{bitv} {bitv} {natToHex (lz n a)} {natToHex (tzN (64 * n) a)} {natToHex (toN (64 * n) a)} {natToHex (64 * n - lz n a)} {natToHex (64 * n - lz n a)} {natToHex setv}"
+      s!"{l1} ;; {l0}"
+    | _ => bad),
+  -- ---- modular add / sub / neg  (a, b < p)
+  op "c01.leak.modarith" "dhhh" (fun
+    | [n, a, b, p] =>
+      let x := sec n a; let y := sec n b; let q := sec n p
+      let l1 := s!"{hx (addMod n x y q).val} {hx (subMod n x y q).val} {hx (negMod n x q).val}"
+      let l0 := s!"{natToHex ((a + b) % p)} {natToHex ((a + p - b) % p)} {natToHex ((p - a) % p)}"
+      s!"{l1} ;; {l0}"
+    | _ => bad),
+  op "c01.leak.sub_mod_with_carry" "dhdhh" (fun
+    | [n, a, c, b, p] =>
+      -- requires a + c·2^BITS - b < p … as the callers guarantee; the spec is the modular difference
+      s!"{hx (subModWithCarry n (sec n a) (Sec.ofNat c) (sec n b) (sec n p)).val} ;; {natToHex ((a + c * B ^ n + p - b) % p)}"
+    | _ => bad),
+  -- ---- multiplication
+  op "c01.leak.split_mul" "ddhh" (fun
+    | [n, m, a, b] => let r := (splitMul n m (sec n a) (sec m b)).val
+      s!"{hx r.1} {hx r.2} ;; {natToHex (a * b % B ^ n)} {natToHex (a * b / B ^ n)}"
+    | _ => bad),
+  op "c01.leak.square_wide" "dh" (fun
+    | [n, a] => let r := (squareWide n (sec n a)).val
+      s!"{hx r.1} {hx r.2} ;; {natToHex (a * a % B ^ n)} {natToHex (a * a / B ^ n)}"
+    | _ => bad),
+  op "c01.leak.mul_forms" "dhh" (fun
+    | [n, a, b] =>
+      let x := sec n a; let y := sec n b; let m := B ^ n
+      let cm := (checkedMul n n x y).val; let cs := (checkedSquare n x).val
+      let l1 := s!"{hx (wrappingMul n n x y).val} {opt (hx cm.1) cm.2} {hx (saturatingMul n n x y).val} {opt (hx cs.1) cs.2}"
+      let l0 := s!"{natToHex (a * b % m)} {optB (natToHex (a * b)) (a * b < m)} {natToHex (if a * b < m then a * b else m - 1)} {optB (natToHex (a * a)) (a * a < m)}"
+      s!"{l1} ;; {l0}"
+    | _ => bad),
+  op "c01.leak.concat_split" "dhh" (fun
+    | [n, a, b] =>
+      let c := (concatMixed n n (2 * n) (sec n a) (sec n b)).val
+      let s := (splitMixed (2 * n) n n c).val
+      let r := (resize (2 * n) n c).val
+      let w := (resize n (2 * n) (sec n b)).val
+      s!"{hx c} {hx s.1} {hx s.2} {hx r} {hx w} ;; {natToHex (a + B ^ n * b)} {natToHex a} {natToHex b} {natToHex a} {natToHex b}"
+    | _ => bad),
+  -- ---- division
+  op "c01.leak.reciprocal" "h" (fun
+    | [d] => s!"{wd (reciprocal (Sec.ofNat d)).val} ;; {natToHex ((B * B - 1) / d - B)}"
+    | _ => bad),
+  op "c01.leak.div_rem_limb" "dhh" (fun
+    | [n, a, d] => let r := (divRemLimb n (sec n a) (Sec.ofNat d)).val
+      s!"{hx r.1} {wd r.2} ;; {natToHex (a / d)} {natToHex (a % d)}"
+    | _ => bad),
+  op "c01.leak.div_rem" "dhh" (fun
+    | [n, a, d] => let r := (udivRem n (sec n a) (sec n d)).val
+      s!"{hx r.1} {hx r.2} ;; {natToHex (a / d)} {natToHex (a % d)}"
+    | _ => bad),
+  op "c01.leak.sqrt" "dh" (fun
+    | [n, a] => s!"{hx (sqrt n (sec n a)).val} ;; {natToHex (isqrt a)}"
+    | _ => bad),
+  -- ---- inversion mod 2^k
+  op "c01.leak.inv_mod2k" "dhd" (fun
+    | [n, a, k] =>
+      let r := (invMod2k n (sec n a) (Sec.ofNat k)).val; let v := (invMod2kVartime n (sec n a) k).val
+      let some := decide (k = 0 ∨ a % 2 = 1)
+      -- the inverse is unique mod 2^k: check the defining equation, print the model's value when it holds
+      let ok (x : Nat) : Bool := x < 2 ^ (min k (64 * n)) ∧ x * a % 2 ^ (min k (64 * n)) = 1 % 2 ^ (min k (64 * n))
+      let l0v := if ok (vl r.1) then natToHex (vl r.1) else "no-inverse-found"
+      s!"{opt (hx r.1) r.2} {opt (hx v.1) v.2} ;; {optB l0v some} {optB l0v some}"
+    | _ => bad),
+  -- ---- Montgomery multiplication / exponentiation (odd modulus m; operands < m)
+  op "c01.leak.monty" "dhhhd" (fun
+    | [n, x, e, m, ebits] =>
+      let r := B ^ n
+      let ni := Sec.ofNat (negInv64 m)
+      let ms := sec n m
+      let one' := sec n (r % m)
+      let xm := sec n (x * r % m)
+      let em := sec n (e * r % m)
+      let prod := (mulMont n xm em ms ni).val
+      let prodR := (montgomeryReduction n prod (zeros n) ms ni).val
+      let pw := (powBoundedExp n xm (sec n e) ebits ms one' ni).val
+      let pwR := (montgomeryReduction n pw (zeros n) ms ni).val
+      let pf := (pow n xm (sec n e) ms one' ni).val
+      let pfR := (montgomeryReduction n pf (zeros n) ms ni).val
+      let l0 := s!"{natToHex (x * e % m)} {natToHex (powMod x (e % 2 ^ ebits) m)} {natToHex (powMod x e m)}"
+      s!"{hx prodR} {hx pwR} {hx pfR} ;; {l0}"
+    | _ => bad),
+  -- ---- Int
+  op "c01.leak.int_arith" "dhh" (fun
+    | [n, a, b] =>
+      let x := sec n a; let y := sec n b; let ia := sgn n a; let ib := sgn n b
+      let ab := (intAbsSign n x).val; let ca := (intCheckedAdd n x y).val; let cs := (intCheckedSub n x y).val
+      let cn := (intCheckedNeg n x).val; let on := (intOverflowingNeg n x).val
+      let nf := (intNewFromAbsSign n x (msk (b % 2))).val
+      let l1 := s!"{hx ab.1} {mk ab.2} {opt (hx ca.1) ca.2} {opt (hx cs.1) cs.2} {opt (hx cn.1) cn.2} {hx on.1} {mk (intLt n x y).val} {mk (intGt n x y).val} {ordTok (intCmp n x y).val} {opt (hx nf.1) nf.2}"
+      let nfv : Int := if b % 2 = 1 then -((a % B ^ n : Nat) : Int) else ((a % B ^ n : Nat) : Int)
+      let l0 := s!"{natToHex ia.natAbs} {b01 (decide (ia < 0))} {iopt n (ia + ib)} {iopt n (ia - ib)} {iopt n (-ia)} {ihx n (-ia)} {b01 (decide (ia < ib))} {b01 (decide (ia > ib))} {ordOf ia ib} {iopt n nfv}"
+      s!"{l1} ;; {l0}"
+    | _ => bad),
+  op "c01.leak.int_mul" "ddhh" (fun
+    | [n, m, a, b] =>
+      let x := sec n a; let y := sec m b; let ia := sgn n a; let ib := sgn m b
+      let cm := (intCheckedMul n m x y).val; let cu := (intCheckedMulUint n m x y).val
+      let l1 := s!"{opt (hx cm.1) cm.2} {opt (hx cu.1) cu.2} {hx (intWideningMul n m x y).val}"
+      let l0 := s!"{iopt n (ia * ib)} {iopt n (ia * ((b % B ^ m : Nat) : Int))} {ihx (n + m) (ia * ib)}"
+      s!"{l1} ;; {l0}"
+    | _ => bad),
+  op "c01.leak.int_shr" "dhd" (fun
+    | [n, a, s] =>
+      let x := sec n a; let ia := sgn n a
+      let o := (intOverflowingShr n x (Sec.ofNat s)).val; let v := (intShrVartime n x s).val
+      let l1 := s!"{opt (hx o.1) o.2} {hx (intWrappingShr n x (Sec.ofNat s)).val} {opt (hx v.1) v.2}"
+      let sh : Int := ia / ((2 ^ s : Nat) : Int)
+      let l0 := s!"{optB (ihx n sh) (s < 64 * n)} {ihx n (if s < 64 * n then sh else if ia < 0 then -1 else 0)} {optB (ihx n sh) (s < 64 * n)}"
+      s!"{l1} ;; {l0}"
+    | _ => bad),
+  op "c01.leak.int_div" "dhh" (fun   -- divisor non-zero
+    | [n, a, d] =>
+      let x := sec n a; let y := sec n d; let ia := sgn n a; let id := sgn n d
+      let r := (intCheckedDivRem n x y).val; let f := (intCheckedDivRemFloor n x y).val
+      let l1 := s!"{opt (hx r.1) r.2.1} {hx r.2.2} {opt (hx f.1) f.2.1} {hx f.2.2}"
+      -- the remainder of `checked_div_rem_floor` is specified AS THE CODE DEFINES IT (re-signed by `opposing_signs`;
+      -- the deviation from floor-mod is finding C14-floor-remainder-sign of property C14, not a concern of C01)
+      let opp := decide ((ia < 0) ≠ (id < 0))
+      let rm := ia.natAbs % id.natAbs
+      let fr : Int := if opp then -(((if rm ≠ 0 then id.natAbs - rm else 0 : Nat)) : Int) else (rm : Int)
+      let l0 := s!"{iopt n (Int.tdiv ia id)} {ihx n (Int.tmod ia id)} {iopt n (Int.fdiv ia id)} {ihx n fr}"
+      s!"{l1} ;; {l0}"
+    | _ => bad),
+  op "c01.leak.int_checked_div" "dhh" (fun   -- divisor may be zero
+    | [n, a, d] =>
+      let r := (intCheckedDiv n (sec n a) (sec n d)).val
+      s!"{opt (hx r.1) r.2} ;; {if d % B ^ n = 0 then "none" else iopt n (Int.tdiv (sgn n a) (sgn n d))}"
+    | _ => bad),
+  op "c01.leak.int_div_uint" "dhh" (fun   -- divisor non-zero, unsigned
+    | [n, a, d] =>
+      let x := sec n a; let y := sec n d; let ia := sgn n a; let id : Int := ((d % B ^ n : Nat) : Int)
+      let r := (intDivRemUint n x y).val; let f := (intDivRemFloorUint n x y).val
+      let l1 := s!"{hx r.1} {hx r.2} {hx f.1} {hx f.2}"
+      let l0 := s!"{ihx n (Int.tdiv ia id)} {ihx n (Int.tmod ia id)} {ihx n (Int.fdiv ia id)} {natToHex (Int.fmod ia id).toNat}"
+      s!"{l1} ;; {l0}"
+    | _ => bad),
+  -- ---- BoxedUint
+  op "c01.leak.boxed_addsub" "dhdhh" (fun
+    | [na, a, nb, b, c] =>
+      let x := sec na a; let y := sec nb b; let k := max na nb; let m := B ^ k
+      let ad := (boxedAdc na nb x y (Sec.ofNat c)).val; let sb := (boxedSbb na nb x y (Sec.ofNat c)).val
+      let l1 := s!"{hxl ad.1} {wd ad.2} {hxl sb.1} {wd sb.2} {mk (boxedCtEq na nb x y).val} {mk (boxedCtLt na nb x y).val} {mk (boxedCtGt na nb x y).val} {ordTok (boxedCmp na nb x y).val}"
+      let bw := c / HALF
+      let l0 := s!"{nhl k ((a + b + c) % m)} {natToHex ((a + b + c) / m)} {nhl k ((a + m - b - bw) % m)} {natToHex (if a < b + bw then WMAX else 0)} {b01 (a == b)} {b01 (decide (a < b))} {b01 (decide (a > b))} {ordOf a b}"
+      s!"{l1} ;; {l0}"
+    | _ => bad),
+  op "c01.leak.boxed_assign" "dhdhhd" (fun   -- nb ≤ na
+    | [na, a, nb, b, c, ch] =>
+      let x := sec na a; let y := sec nb b; let m := B ^ na
+      let ad := (boxedAdcAssign na nb x y (Sec.ofNat c)).val; let sb := (boxedSbbAssign na nb x y (Sec.ofNat c)).val
+      let l1 := s!"{hxl ad.1} {wd ad.2} {hxl sb.1} {wd sb.2} {hxl (boxedConditionalNegate na x (msk ch)).val} {hxl (boxedWrappingNeg na x).val} {mk (boxedIsZero na x).val} {hxl (boxedShr1 na x).val}"
+      let bw := c / HALF
+      let l0 := s!"{nhl na ((a + b + c) % m)} {natToHex ((a + b + c) / m)} {nhl na ((a + m - b - bw) % m)} {natToHex (if a < b + bw then WMAX else 0)} {nhl na (if ch = 1 then (m - a) % m else a)} {nhl na ((m - a) % m)} {b01 (a == 0)} {nhl na (a / 2)}"
+      s!"{l1} ;; {l0}"
+    | _ => bad),
+  op "c01.leak.boxed_ct" "dhhd" (fun
+    | [n, a, b, c] =>
+      let x := sec n a; let y := sec n b
+      let sw := (boxedCtSwap n x y (msk c)).val
+      s!"{hxl (boxedCtSelect n x y (msk c)).val} {hxl (boxedCtAssign n x y (msk c)).val} {hxl sw.1} {hxl sw.2} ;; {nhl n (if c = 0 then a else b)} {nhl n (if c = 0 then a else b)} {nhl n (if c = 0 then a else b)} {nhl n (if c = 0 then b else a)}"
+    | _ => bad),
+  op "c01.leak.boxed_mul" "dhdh" (fun
+    | [na, a, nb, b] =>
+      let x := sec na a; let y := sec nb b
+      let cm := (boxedCheckedMul na nb x y).val
+      let l1 := s!"{hxl (boxedMul na nb x y).val} {hxl (boxedWrappingMul na nb x y).val} {opt (hxl cm.1) cm.2}"
+      let l0 := s!"{nhl (na + nb) (a * b)} {nhl na (a * b % B ^ na)} {optB (nhl na (a * b)) (a * b < B ^ na)}"
+      s!"{l1} ;; {l0}"
+    | _ => bad),
+  op "c01.leak.boxed_square" "dh" (fun
+    | [n, a] => s!"{hxl (boxedSquare n (sec n a)).val} ;; {nhl (2 * n) (a * a)}"
+    | _ => bad),
+  op "c01.leak.boxed_shift" "dhd" (fun
+    | [n, a, s] =>
+      let x := sec n a
+      let l := (boxedOverflowingShl n x (Sec.ofNat s)).val; let r := (boxedOverflowingShr n x (Sec.ofNat s)).val
+      let v := (boxedShrVartimeInto n x (zeros n) s).val
+      let l1 := s!"{hxl l.1} {mk l.2} {hxl r.1} {mk r.2} {if v.2 then hxl v.1 else "none"}"
+      let inr := decide (s < 64 * n)
+      let l0 := s!"{nhl n (if inr then a * 2 ^ s % B ^ n else 0)} {b01 inr} {nhl n (if inr then a / 2 ^ s else 0)} {b01 (!inr)} {optB (nhl n (a / 2 ^ s)) inr}"
+      s!"{l1} ;; {l0}"
+    | _ => bad),
+  op "c01.leak.boxed_modarith" "dhhh" (fun
+    | [n, a, b, p] =>
+      let x := sec n a; let y := sec n b; let q := sec n p
+      let l1 := s!"{hxl (boxedAddMod n x y q).val} {hxl (boxedSubMod n x y q).val} {hxl (boxedNegMod n x q).val}"
+      let l0 := s!"{nhl n ((a + b) % p)} {nhl n ((a + p - b) % p)} {nhl n ((p - a) % p)}"
+      s!"{l1} ;; {l0}"
+    | _ => bad),
+  op "c01.leak.boxed_bits" "dhdd" (fun
+    | [n, a, i, v] =>
+      let x := sec n a
+      let l1 := s!"{mk (boxedBit n x (Sec.ofNat i)).val} {wd (boxedLeadingZeros n x).val} {wd (boxedTrailingZeros n x).val} {wd (trailingOnes n x).val} {wd (boxedBits n x).val} {hxl (boxedSetBit n x (Sec.ofNat i) (msk v)).val}"
+      let bitv := a / 2 ^ i % 2
+      let setv := if i < 64 * n then (if v = 1 then a ||| 2 ^ i else a - bitv * 2 ^ i) else a
+      let l0 := s!"{bitv} {natToHex (lz n a)} {natToHex (tzN (64 * n) a)} {natToHex (toN (64 * n) a)} {natToHex (64 * n - lz n a)} {nhl n setv}"
+      s!"{l1} ;; {l0}"
+    | _ => bad),
+  op "c01.leak.boxed_inv_mod2k" "dhd" (fun
+    | [n, a, k] =>
+      let r := (boxedInvMod2k n (sec n a) (Sec.ofNat k)).val; let v := (boxedInvMod2kVartime n (sec n a) k).val
+      let some := decide (k = 0 ∨ a % 2 = 1)
+      let kk := min k (64 * n)
+      -- for an even `a` (k > 0) the crate still returns the bit pattern the loop produced: the model's value is the spec
+      let ok (x : Nat) : Bool := a % 2 = 0 ∨ (x < 2 ^ kk ∧ x * a % 2 ^ kk = 1 % 2 ^ kk)
+      let l0v (x : Nat) := if ok x then nhl n x else "no-inverse-found"
+      s!"{hxl r.1} {mk r.2} {hxl v.1} {mk v.2} ;; {l0v (vl r.1)} {b01 some} {l0v (vl v.1)} {b01 some}"
+    | _ => bad)
+]
+
+def parse (sig : String) (args : List String) : Option (List Nat) :=
+  if sig.length ≠ args.length then none else
+  (sig.toList.zip args).mapM fun (c, a) => if c = 'd' then a.toNat? else hexToNat? a
+
+end D01
 
 /-- operations of property C01 (op names start with `c01.`) -/
-def dispatchC01 : Dispatch := fun _ _ => none
+def dispatchC01 : Dispatch := fun op args =>
+  match D01.ops.find? (fun e => e.1 == op) with
+  | none => none
+  | some (_, sig, f) =>
+    match D01.parse sig args with
+    | some l => some (f l)
+    | none => badArgs
 
 end CB
